@@ -93,8 +93,55 @@ func routerBacklogScript(n int) string {
 	return b.String()
 }
 
+// routerFailScript: no pause (a batch of resends leaves in one instant), some sends, then a lost
+// indication whose batch contains a telegram the socket refuses (at the front, in the middle or at
+// the end of the batch), then further lost indications that show what is retained afterwards
+func (g *gen) routerFailScript() string {
+	retain := g.pick(4, 8, 8, 16)
+	b := &sb{head: fmt.Sprintf("rtr 0 %d", retain)}
+	n := 3 + g.r.Intn(retain+3)
+	for pid := 1; pid <= n; pid++ {
+		b.at(g.pick(0, 1), fmt.Sprintf("send %d", pid))
+	}
+	held := n
+	if held > retain {
+		held = retain
+	}
+	for round := 0; round < 1+g.r.Intn(3) && held > 0; round++ {
+		k := 1 + g.r.Intn(held)
+		if g.r.Intn(3) == 0 {
+			k = held + g.r.Intn(3)
+		}
+		kk := k
+		if kk > held {
+			kk = held
+		}
+		// the batch is pids n-kk+1 .. n (while nothing failed before); fail one or two of them
+		fails := map[int]bool{}
+		for f := g.pick(0, 1, 1, 2); f > 0; f-- {
+			fails[n-g.r.Intn(kk)] = true
+		}
+		for pid := range fails {
+			b.at(0, fmt.Sprintf("failpid %d 1", pid))
+		}
+		b.at(1, fmt.Sprintf("rx rlost %d", k))
+		for pid := range fails {
+			b.at(1, fmt.Sprintf("failpid %d 0", pid))
+		}
+		g.stats[fmt.Sprintf("rtrfail.batch-failures-%d", len(fails))]++
+		held -= len(fails)
+		b.at(1, fmt.Sprintf("rx rlost %d", g.pick(1, 2, 65535)))
+	}
+	b.at(1, "end")
+	return b.String()
+}
+
 func genOther(g *gen, prop string, budget int, emit func(string)) bool {
 	switch prop {
+	case "C14f":
+		for i := 0; i < budget; i++ {
+			emit(g.routerFailScript())
+		}
 	case "C13":
 		for i := 0; i < budget; i++ {
 			emit(g.routerScript(5+g.r.Intn(40), false))
@@ -143,10 +190,13 @@ func monitorRouter(m *mon, prop string, hdr []int, evs []ev, bad string) {
 	var accepted, gots []string
 	closed := false
 	failing := false
+	failPids := map[string]bool{}
 	for i, e := range evs {
 		switch {
 		case e.in && e.kind == "sockfail":
 			failing = e.f[0] == "1"
+		case e.in && e.kind == "failpid":
+			failPids[e.f[0]] = len(e.f) < 2 || e.f[1] == "1"
 		case e.in && e.kind == "close":
 			closed = true
 		case e.in && e.kind == "rx" && e.f[0] == "rind" && !closed:
@@ -162,7 +212,12 @@ func monitorRouter(m *mon, prop string, hdr []int, evs []ev, bad string) {
 			if k > len(retained) {
 				k = len(retained)
 			}
-			expectResend = append([]string(nil), retained[len(retained)-k:]...)
+			expectResend = nil
+			for _, p := range retained[len(retained)-k:] {
+				if !failPids[p] {
+					expectResend = append(expectResend, p) // a refused write leaves no transmission (and is not retained)
+				}
+			}
 			retained = retained[:len(retained)-k]
 			// the frames transmitted from now on (until the next event that sends) must be exactly these
 			var got []string
